@@ -93,17 +93,33 @@ func HarnessC15Reader() {
 		ds = append(ds, d)
 		text += d.t.String() + "\n"
 	}
-	bad := symTripleKinds("bad", 0, 0, 0).t.String()
-	cut := verif.Choice("cut", 3)
-	cuts := []int{1, len(bad) / 2, len(bad) - 1}
-	text += bad[:cuts[cut]] + "\n"
+	// the text either holds a malformed line followed by one more valid line, or
+	// is well formed throughout; its last line may lack the final newline
+	malformed := verif.Choice("malformed", 2) == 1
 	after := symTripleKinds("after", 0, 0, 0)
-	text += after.t.String() + "\n"
+	if malformed {
+		bad := symTripleKinds("bad", 0, 0, 0).t.String()
+		cut := verif.Choice("cut", 3)
+		cuts := []int{1, len(bad) / 2, len(bad) - 1}
+		text += bad[:cuts[cut]] + "\n"
+	}
+	text += after.t.String()
+	if verif.Choice("final-newline", 2) == 1 {
+		text += "\n"
+	}
 	var n int
 	var rerr error
 	if !noPanic("C15/reader/no-panic", func() {
 		n, rerr = bio.ReadIntoGraph(ctx, g, bytes.NewReader([]byte(text)), literal.DefaultBuilder())
 	}) {
+		return
+	}
+	if !malformed {
+		verif.Reach("read-well-formed")
+		verif.Assert(rerr == nil, "C15/reader/well-formed-text-is-read")
+		verif.Assert(n == good+1, "C15/reader/reports-every-line")
+		ex, e := g.Exist(ctx, after.t)
+		verif.Assert(e == nil && ex, "C15/reader/last-line-is-loaded")
 		return
 	}
 	verif.Reach("read")
